@@ -55,3 +55,9 @@ Proof.
   destruct a1 as [[x1 y1] z1], a2 as [[x2 y2] z2].
   unfold rescale, vadd, vscale, vx, vy, vz; cbn. apply vec_eq; ring.
 Qed.
+
+Theorem lattice_vector : forall (a1 a2 a3 : rvec) (i j k : Z),
+  latticeVector RS [a1; a2; a3] [i; j; k] =
+  vadd (vadd (vscale (IZR i) a1) (vscale (IZR j) a2)) (vscale (IZR k) a3) /\
+  latticeVector RS [a1; a2] [i; j; k] = vadd (vscale (IZR i) a1) (vscale (IZR j) a2).
+Proof. intros. split; [apply lattice_vector_three|apply lattice_vector_two]. Qed.
